@@ -3,7 +3,7 @@ from fractions import Fraction
 from .common import use_repo
 from .sd_gen import fr
 
-ELEMENTS = ["c1", "fin", "bf", "fout", "fo2", "s1", "s2", "s3", "s4", "lkt", "lks", "dl", "sm", "tr", "st", "pl"]
+ELEMENTS = ["c1", "fin", "bf", "fout", "fo2", "s1", "s2", "s3", "s4", "lkt", "lks", "lk2", "dl", "sm", "tr", "st", "pl"]
 
 
 PREFIX = "plant.line."      # fully qualified names of elements created through nested Module objects
@@ -27,7 +27,8 @@ def build(P, rs, name="sdm", spelling=0, modules=False):
     fin = m.flow("fin"); fin.equation = c1
     bf = m.biflow("bf"); bf.equation = c1
     fout = m.flow("fout"); fout.equation = qf * s1
-    fo2 = m.flow("fo2"); fo2.equation = g
+    # a flow whose rate is a bare Python number (also a negative one: it is clamped at 0 like any other flow) or the constant
+    fo2 = m.flow("fo2"); fo2.equation = [lambda: g, lambda: f(P["g"]), lambda: g * 1.0][spelling % 3]()
     # the net flow of a stock in several spellings of the same mathematics (number * element, negation, grouping)
     s1.initial_value = f(P["s0"])
     s1.equation = [lambda: fin - fout - fo2, lambda: fin - (fout + fo2), lambda: -1.0 * fout + fin - fo2, lambda: fin - 1.0 * (fout + fo2),
@@ -43,8 +44,11 @@ def build(P, rs, name="sdm", spelling=0, modules=False):
     s4 = m.stock("s4"); s4.initial_value = 0.0
     s4.equation = [lambda: sd.lookup(sd.time(), "tab") + c1 ** 2, lambda: c1 * c1 + sd.lookup(sd.time(), "tab"),
                    lambda: sd.lookup(sd.time(), "tab") + c1 ** 2.0][spelling % 3]()
-    lkt = m.converter("lkt"); lkt.equation = sd.lookup(sd.time(), "tab")
+    # graphical functions by name and with the points written inline (two different inline tables in one model)
+    points2 = [[x, y + 1.0] for x, y in points]
+    lkt = m.converter("lkt"); lkt.equation = [lambda: sd.lookup(sd.time(), "tab"), lambda: sd.lookup(sd.time(), [list(p_) for p_ in points])][spelling % 2]()
     lks = m.converter("lks"); lks.equation = sd.lookup(s1, "tab")
+    lk2 = m.converter("lk2"); lk2.equation = sd.lookup(sd.time(), [list(p_) for p_ in points2])
     dl = m.converter("dl")
     dl.equation = sd.delay(model, c1, float(P["dn"] * fr(rs["dt"])), None if P["dinit"][1] == 0 else f(P["dinit"]))
     sm = m.converter("sm"); sm.equation = sd.smooth(model, c1, f(P["T"]), f(P["sinit"]))
@@ -68,7 +72,7 @@ class _Namespace:
         return getattr(self._model, name)
 
 
-EDITABLE = ["c1", "fin", "bf", "fout", "fo2", "s1", "s2", "s3", "s4", "lkt", "lks"]      # elements that do not capture parameters when built
+EDITABLE = ["c1", "fin", "bf", "fout", "fo2", "s1", "s2", "s3", "s4", "lkt", "lks"]      # (lk2's inline table is part of its equation)      # elements that do not capture parameters when built
 
 
 def edit(m, P, spelling=0):
@@ -83,6 +87,8 @@ def edit(m, P, spelling=0):
     c1, g = m.converters["c1"], c["g"]
     fin, fout, fo2, bf = m.flows["fin"], m.flows["fout"], m.flows["fo2"], m.biflows["bf"]
     s1, s2, s3, s4 = (m.stocks[n] for n in ("s1", "s2", "s3", "s4"))
+    fo2.equation = [lambda: f(P["g"]), lambda: g][spelling % 2]()       # (it may have been built from a bare number)
+    m.converters["lkt"].equation = sd.lookup(sd.time(), "tab")            # (it may have been built with inline points)
     s1.initial_value = f(P["s0"])
     s1.equation = [lambda: fin - (fout + fo2), lambda: fin - fout - fo2, lambda: (-fout) + fin + (-fo2)][spelling % 3]()
     s2.equation = [lambda: fout + bf, lambda: bf + fout, lambda: 1.0 * bf + fout][spelling % 3]()
